@@ -116,7 +116,8 @@ def cycle_case(d, max_proj, stale_satisfy, eigh_mode='contract', diagonal_state=
       for i in range(d):
         for j in range(d):
           if i != j:
-            ctx.assume(ctx.and_(ctx.eq(A[i, j], 0, tol=0.0), ctx.eq(w[i * d + j], 0, tol=0.0)))
+            A[i, j] = np.float64(0.0)
+            w[i * d + j] = np.float64(0.0)
     t = ctx.real('t')
     alpha = ctx.real('alpha')
     ctx.assume_pos(t)
@@ -364,7 +365,9 @@ def cases(tier, seed):
                   hard_timeout_s=4000))
   out.append(case('cycle_d2_budget', cycle_case(2, 1, True, eigh_mode='uninterpreted'), FUNCS,
                   'one cycle from an arbitrary state, d=2, max_proj=1, spectrum uninterpreted: budget and acceptance obligations only', cost=20, validate=60, hard_timeout_s=600))
-  # (a variant with a diagonal current iterate and eigh by contract was tried for C14_m4: no verdict within 15 min -- not registered)
+  # (a variant with a diagonal current iterate (cycle_case(..., diagonal_state=True)) was tried twice for C14_m4: with the general eigh contract
+  # no verdict within 15 min; with the exact decomposition of a syntactically diagonal matrix (stubs._eigh2 fast path) the exploration stalls
+  # in the nlsat feasibility query of the division norm(alpha*M) / norm(A_old) (> 15 min) -- not registered)
   out.append(case('init_dispatch', init_dispatch_case(), FUNCS, 'init in {identity, covariance, random, array} x diagonal in {False, True}', cost=1))
   out.append(case('cycle_d1_proj2', cycle_case(1, 2, True), FUNCS, 'd=1, max_proj=2', tiers=T, cost=10, validate=0))
   out.append(case('grad_projection_d1', grad_projection_case(1), FUNCS, 'arbitrary 1x1 gradients', tiers=T, cost=1))
